@@ -7,7 +7,7 @@
    at ANY times with uint32/uint64 weights).  Only statements here; proofs in
    proofs/SemaphoreProofs.v. *)
 From Coq Require Import NArith ZArith List Bool.
-From LV Require Import model.Semaphore spec.SemaphoreSpec proofs.SemaphoreProofs.
+From LV Require Import model.Semaphore spec.SemaphoreSpec model.SemaphoreStream proofs.SemaphoreProofs proofs.SemaphoreAccept.
 Import ListNotations.
 
 (* The held amount never exceeds the capacity the semaphore was created with; the capacity is the
@@ -141,9 +141,7 @@ Proof. exact simulate_all_return. Qed.
        its deadline has been reached,
      - every caller blocked again justified: does not fit, does not exceed, deadline ahead,
      - nobody left runnable.
-   [drained] is the record of these clauses.  What remains between this and "spec_check accepts the
-   scheduler's output for every script" is only the acceptor's bookkeeping (digest_of, the sorted list of
-   instants, lookup of a caller's return by id), which is exercised on every case (model_spec_ok). *)
+   [drained] is the record of these clauses; C30_model_meets_spec below chains them over whole scripts. *)
 Theorem C30_instant_clauses : forall c prefer s now e0,
   inv c (fst (fst s)) -> ev_wf e0 ->
   let s1 := sim_step true s now e0 in
@@ -154,6 +152,29 @@ Proof. exact instant_clauses. Qed.
 (* the invariant used above holds in every reachable state *)
 Theorem C30_reachable_inv : forall c st, m_wf c -> reachable c st -> inv c st.
 Proof. exact reachable_inv. Qed.
+
+(* THE MODEL MEETS THE SPECIFICATION.  [accept] (spec/SemaphoreSpec.v) is the executable acceptor that
+   decides spec_ok on the implementation's observations (arranged as a chronological stream of instants);
+   [simulate_stream] is the model's replay scheduler reporting the same kind of stream.  For every
+   capacity, every well-formed script (one call per instant at increasing instants, unique goroutine ids,
+   Go-valued weights, no deadline exactly on the instant of a scripted call) and every order in which
+   woken callers get the mutex, the acceptor accepts what the model does - including that every Acquire
+   returns (nobody is pending at the end). *)
+Theorem C30_model_meets_spec : forall c prefer t0 sc,
+  m_wf c -> script_wf t0 sc -> accept c (simulate_stream c prefer sc) = true.
+Proof. exact model_meets_spec. Qed.
+
+(* non-vacuity: the witness script of the pinned tree's defect is well-formed (and the acceptor rejects
+   what the pinned tree does on it: sem_old_timeout_refuted) *)
+Example C30_model_meets_spec_nonvacuous : script_wf 0%Z wit_timeout /\ m_wf (mkM 1 100).
+Proof.
+  split; [|unfold m_wf, two32, two64; cbn; split; reflexivity].
+  unfold script_wf, wit_timeout. cbn [times_inc acq_ids pos_deadlines flat_map snd fst app Z.ltb Z.compare].
+  split; [repeat split; reflexivity|]. split; [repeat constructor; cbn; intuition discriminate|].
+  split.
+  - intros x [<-|[<-|[]]]; cbn; unfold m_wf, two32, two64; cbn; split; reflexivity.
+  - intros d x Hd Hx. cbn in Hd. destruct Hd as [<-|[<-|[]]]; destruct Hx as [<-|[<-|[]]]; cbn; discriminate.
+Qed.
 
 (* non-vacuity: a reachable state with held > 0 and two runnable waiters, one that fits and one
    that does not *)
@@ -181,3 +202,4 @@ Print Assumptions C30_scheduler_quiescent.
 Print Assumptions C30_scheduler_all_return.
 Print Assumptions C30_instant_clauses.
 Print Assumptions C30_reachable_inv.
+Print Assumptions C30_model_meets_spec.
